@@ -248,8 +248,12 @@ impl FileReader for IOFileReader {
                     .ok()
                     .ok_or(FileReaderError::InvalidPath)?;
                 let parent = parent.parent().ok_or(FileReaderError::InvalidPath)?;
-                parent
-                    .join(path)
+                // One name per file: `a.s`, `./a.s` and `../d/a.s` can be the
+                // same file, and an include cycle is recognised by the name
+                let joined = parent.join(path);
+                joined
+                    .canonicalize()
+                    .unwrap_or(joined)
                     .to_str()
                     .ok_or(FileReaderError::InvalidPath)?
                     .to_owned()
